@@ -59,3 +59,16 @@ fn nonce_from_commitment_total() {
         Err(e) => { core::mem::forget(e); kani::cover!(n == 1); }
     }
 }
+
+//@ harness: value_from_commitment_oob class=F tier=quick props=C10
+//@ clause: Value::from_commitment on an 8-byte slice (its own allocation) performs no out-of-bounds read — EXPECTED TO FAIL: PedersenCommitment::from_slice hands the pointer to a C function that reads 33 bytes
+#[kani::proof]
+#[kani::stub(zffi::secp256k1_pedersen_commitment_parse, ffi_models::pedersen_commitment_parse)]
+fn value_from_commitment_oob() {
+    ffi_models::init();
+    let b: [u8; 8] = kani::any();
+    match Value::from_commitment(&b) {
+        Ok(_) => { kani::cover!(true); }
+        Err(e) => { core::mem::forget(e); kani::cover!(true); }
+    }
+}
